@@ -271,6 +271,11 @@ def gen_sdp_tables():
     m.raw("Definition setup_to_role (s : string) : bool :=\n  %s %s." %
           (" ".join("if String.eqb s %s then %s else" % (coq_str(k), v) for k, v in tbl), dflt.group(1)),
           "set_remote_description setup -> is_client table", PC)
+    if not re.search(r"let setup_attrs = desc \.media_sections \.iter\(\) \.flat_map\(\|section\| section\.attributes\.iter\(\)\) "
+                     r"\.chain\(desc\.session\.attributes\.iter\(\)\); for attr in setup_attrs \{ if attr\.key == \"setup\"", srd):
+        raise Untranslatable("set_remote_description: a=setup lookup order (media sections, then session level) changed shape")
+    m.raw("Definition setup_media_then_session : bool := true.",
+          "set_remote_description a=setup lookup order: media-level attributes, then session-level (shape check)", PC)
     mo = re.search(r"if self\.config\(\)\.transport_mode == TransportMode::Rtp \|\| self\.config\(\)\.transport_mode == TransportMode::Srtp "
                    r"\{ new_role = Some\((true|false)\); \}", srd)
     if not mo:
